@@ -7,6 +7,7 @@
 import SygmaModel.Model.C01
 import SygmaModel.Model.C02
 import SygmaModel.Model.C14
+import SygmaModel.Model.C03
 namespace Sygma.Pipeline
 
 /-- a proposal as the hash sees it (`Source`, `DepositNonce`, `ResourceId`, `Data`) -/
@@ -35,6 +36,22 @@ def signedDigests (H : C02.Hash) (chain : Nat) (addr : Bytes) (cap tg : Nat) (ms
 /-- the proposals committed to by the signed digests, batch by batch -/
 def committed (cap tg : Nat) (msgId : String) (ds : List Delivered) : List (List C02.Prop') :=
   (C14.signed msgId (C14.batches cap tg (pins ds))).map fun s => pick ds s.2
+
+/-! ### Substrate destination: one signing session over all not-yet-executed proposals of the delivery -/
+
+/-- the delivery as the Substrate executor's loop sees it: position in the delivery and the pallet's answer
+    (`none` = the executed-lookup failed) -/
+def subDelivery (ds : List (C01.Proposal × Option Bool)) : C03.Delivery :=
+  ds.zipIdx.map fun x => (x.2, match x.1.2 with | none => .err | some true => .exec | some false => .notExec)
+
+/-- what the Substrate executor hands to threshold signing: at most one digest, over the session's proposals -/
+def subSignedDigests (H : C02.Hash) (chain : Nat) (ds : List (C01.Proposal × Option Bool)) : List Bytes :=
+  (C03.sub (subDelivery ds)).sessions.map fun idxs =>
+    C02.Spec.digest H chain C02.palletContract (idxs.filterMap fun i => (ds[i]?).map fun d => toProp' d.1)
+
+/-- the proposals committed to by the Substrate executor's digest(s) -/
+def subCommitted (ds : List (C01.Proposal × Option Bool)) : List (List C02.Prop') :=
+  (C03.sub (subDelivery ds)).sessions.map fun idxs => idxs.filterMap fun i => (ds[i]?).map fun d => toProp' d.1
 
 /-- deposits observed in one range, relayed to an EVM destination: the deposits whose handlers succeed become the delivery -/
 def deliver (ins : List (C01.Input × Bool)) : List Delivered :=
